@@ -425,6 +425,7 @@ def stage_blocking_cases(pid, tier, seed, d, binp, st, ctx):
     threads (vh blockcases) and compared with the model's outcome.  pid C17 judges the calls on the ActorRef, pid C16 compares
     each call through a wrapper with the same call on the ActorRef."""
     T_US, SLACK = 300400, 1000000      # a timeout that is not a whole number of milliseconds; scheduling slack
+    T_THAW = 2000300
     base = ("SPECIFICATION Spec\nCONSTANTS\n  HelperRt = \"%s\"\n  KeepsTimeout = %s\n  T = 2\n  MaxNow = 4\n  Emit = %s\n"
             "INVARIANTS ByDeadline ReturnsInv NoPanic Delivery EmitCases\nPROPERTIES Returns\nCHECK_DEADLOCK FALSE\n")
     def tlc(name, helper, keeps, emit):
@@ -460,10 +461,14 @@ def stage_blocking_cases(pid, tier, seed, d, binp, st, ctx):
             raise ctx["ToolError"]("MODEL FAILURE: Blocking.tla gives the wrapper a different outcome: %s" % (k,))
     runnable = [c for c in cases if c["res"] != "panic"]     # untimed calls on a runtime's own thread: tokio panics, nothing is promised
     runnable.sort(key=key)
-    cp = os.path.join(d, "block_cases.json"); json.dump(runnable, open(cp, "w"))
-    rp_ = os.path.join(d, "block_results.json")
-    ctx["run"]([binp, "blockcases", "--in", cp, "--out", rp_, "--t-us", str(T_US), "--par", "12"], cwd=d, timeout=900)
-    obs = {key(o): o for o in json.load(open(rp_))}
+    # mode "thaw" (a slot is freed at 0.8 T, no reply ever) runs with a long timeout: a second deadline started at the moment of
+    # acceptance would end at 1.8 T, which has to lie beyond T + SLACK
+    obs = {}
+    for tag, sel, t_us in (("", lambda c: c["cfg"]["mode"] != "thaw", T_US), ("_thaw", lambda c: c["cfg"]["mode"] == "thaw", T_THAW)):
+        cp = os.path.join(d, "block_cases%s.json" % tag); json.dump([c for c in runnable if sel(c)], open(cp, "w"))
+        rp_ = os.path.join(d, "block_results%s.json" % tag)
+        ctx["run"]([binp, "blockcases", "--in", cp, "--out", rp_, "--t-us", str(t_us), "--par", "12"], cwd=d, timeout=900)
+        obs.update({key(o): o for o in json.load(open(rp_))})
     def judge(k):
         """list of complaints about the observed outcome of case k against the model"""
         o = obs.get(k)
@@ -474,10 +479,11 @@ def stage_blocking_cases(pid, tier, seed, d, binp, st, ctx):
         if o["res"] != mres:
             bad.append("outcome %s, the model says %s" % (o["res"], mres))
         if k[4] == "timed":
-            if o["res"] == "blocked" or o["us"] > T_US + SLACK:
-                bad.append("a call with a %d us timeout was not back after %d us" % (T_US, T_US + SLACK))
-            if o["res"] == "timeout" and o["us"] < T_US:
-                bad.append("Timeout after %d us, before the %d us deadline" % (o["us"], T_US))
+            tu = o.get("t_us", T_US)
+            if o["res"] == "blocked" or o["us"] > tu + SLACK:
+                bad.append("a call with a %d us timeout was not back after %d us" % (tu, tu + SLACK))
+            if o["res"] == "timeout" and o["us"] < tu:
+                bad.append("Timeout after %d us, before the %d us deadline" % (o["us"], tu))
             if o["res"] == "panic":
                 bad.append("a timed call panicked")
         if o["res"] != "blocked" and mres != "blocked" and k[2] != "dead" and o["delivered"] != (1 if mq else 0):
@@ -528,7 +534,7 @@ def stage_blocking_cases(pid, tier, seed, d, binp, st, ctx):
     ctx["log"]("Blocking.tla: %d states, %d configurations (%s); %d executed on real threads, %d judged for %s, violations: %d"
                % (ds, len(model), hist, len(obs), checked, pid, len(viol)))
     return dict(coverage={"module": "Blocking", "states": ds, "configurations": len(model), "model_outcomes": hist,
-                          "cases_executed": len(obs), "cases_judged": checked, "timeout_us": T_US, "slack_us": SLACK,
+                          "cases_executed": len(obs), "cases_judged": checked, "timeout_us": T_US, "timeout_us_thaw_mode": T_THAW, "slack_us": SLACK,
                           "deviations_refuted_by_tlc": ["HelperRt=ambient", "KeepsTimeout=FALSE"]},
                 violations=vout, traces=checked, states=ds, transitions=g,
                 samples=[{"stage": "blocking_cases", "case": runnable[0]["cfg"], "model": runnable[0]["res"]}],
